@@ -55,6 +55,10 @@ def gen_job(verif_seed, tier, index):
         # residue centres on an integer lattice, handed to the backmapping as integer arrays
         if jobgen.add_coordinates(job, g, {"lattice_centres": True, "coord_modes": ["meta_full", "meta_full", "meta_prefix"]}):
             job["int_positions"] = True
+    if g.random() < 0.08:
+        for mt in job["spec"]["moltypes"]:
+            mt["double_links"] = True           # two bonds between every pair of bonded residues (ladder polymers)
+        job["double_links"] = True
     if job.get("coord_text") is None and not job.get("bld_volumes") and g.random() < 0.12:
         jobgen.add_pre_variant(job, g, g.choice(["other_geometry", "other_graph"]))
     return job
